@@ -6,7 +6,7 @@ import table
 
 OUT = os.path.join(VERIF, "out")
 KNOWN = os.path.join(VERIF, "known_findings.json")
-PREFIX = {"incrate": "verif_kani::proofs::", "bcast": "proofs::", "codec": "proofs::"}
+PREFIX = {"incrate": "verif_kani::proofs::", "bcast": "proofs::", "codec": "proofs::", "smt": ""}
 
 
 def sh(cmd, cwd=None, env=None, timeout=1800):
@@ -73,7 +73,33 @@ def match_known(prop, harness, message):
 
 
 # ---------------------------------------------------------------- one harness
+def decide_smt(prop, spec, tier):
+    """Engine E4: MIR -> SMT-LIB (z3 + cvc5) for Member::can_change."""
+    t0 = time.time()
+    build_replay("dev")  # translation validation uses the native oracle
+    try:
+        p = subprocess.run([sys.executable, os.path.join(VERIF, "smt", "mir2smt.py"), "--repo", REPO], stdout=subprocess.PIPE,
+                           stderr=subprocess.PIPE, text=True, timeout=spec.get("timeout_q", 900))
+        d = json.loads(p.stdout.strip().splitlines()[-1])
+        rc = p.returncode
+    except (subprocess.TimeoutExpired, ValueError, IndexError) as e:
+        d, rc = {"status": "inconclusive", "detail": str(e), "queries": []}, 2
+    checks = [{"name": "e4." + str(i), "status": "SUCCESS" if q.get("ok") else "FAILURE", "desc": "c01: " + q["name"], "loc": "", "func": None}
+              for i, q in enumerate(d.get("queries", []))]
+    status = {0: "PASS", 1: "FAIL"}.get(rc, "INCONCLUSIVE")
+    detail = "; ".join("c01: " + n for n in d.get("violated", [])) if rc == 1 else (d.get("detail", "") or "; ".join(d.get("inconclusive", [])))
+    r = {"harness": spec["name"], "name": spec["name"], "engine": "smt", "status": status, "detail": detail, "wall_s": round(time.time() - t0, 2),
+         "checks": checks, "stats": {"solver_s": round(sum(a["s"] for q in d.get("queries", []) for a in q["answers"].values()), 3),
+                                     "solver_calls": 2 * len(d.get("queries", [])), "stubs": []},
+         "log": "", "cmd": "python3 smt/mir2smt.py --repo " + REPO, "rc": rc, "spec": spec, "replays": [], "e4": d}
+    if rc == 1:
+        r["replays"] = [{"class": "assertion", "desc": "c01: " + n, "tape": "", "native": []} for n in d.get("violated", [])]
+    return r
+
+
 def decide(prop, spec, slot_q, tier):
+    if spec["engine"] == "smt":
+        return decide_smt(prop, spec, tier)
     engine, name = spec["engine"], spec["name"]
     full = PREFIX[engine] + name
     timeout = spec.get("timeout_t" if tier == "thorough" else "timeout_q", 600 if tier == "quick" else 2700)
@@ -158,6 +184,7 @@ def summarize(r):
         "wall_s": r["wall_s"],
         "stubs": r["stats"].get("stubs", []),
         "per_loop_unwind": r.get("unwindset_rules", []),
+        "e4": r.get("e4"),
         "cmd": r["cmd"],
     }
 
